@@ -17,7 +17,9 @@
 
    Scope of the environment part (requests outside it give [None] = out of scope, [run] skips them):
    no cluster (no proxy / multiplexing sessions, acting uid never zero), no background sessions, topic
-   never paused / deleted / unloaded, store never fails, every request of an auth-level session or of a
+   never paused / deleted / unloaded, store never fails (background sessions and store faults: the
+   environment is re-translated with both in Sys/FanoutBkgC02.v, which reuses the fan-out functions
+   of this file unchanged), every request of an auth-level session or of a
    root session acting on behalf of a user (extra.obo, default level auth); no ownership transfer, no
    invitation of absent users by {set sub user}, no mode changes of channel readers, no re-subscription
    of a user whose subscription was deleted, the two participants of a p2p topic never both
